@@ -55,6 +55,7 @@ pub fn spec(id: &str, tier: Tier) -> Option<CheckSpec> {
             let mut s = CheckSpec::new("exploration", tier);
             s.jobs = eng_depfile::jobs(tier);
             s.jobs.extend(eng_hist::jobs("C15", tier));
+            s.jobs.extend(eng_proc::jobs("C15", tier));
             s.rule = "abstract depfiles (1 entry x <=3 prerequisites, 2 entries x <=2, 3 entries x <=1, over 3 targets and 4 prerequisite spellings incl. Windows-style paths) under every formatting (1 entry x <=2 prerequisites) or every formatting with a bounded number of deviations from the canonical one (otherwise), read through the real read_depfile from a real file and compared with the listed prerequisites in order; every string up to length N over {a,space,:,\\,newline} and a NUL/CR/UTF-8 alphabet for totality and well-formed diagnostics; the real file path for all strings up to a smaller bound (error must name the depfile). Non-trivial = at least one prerequisite, or a rejected input.".into();
             s.assumptions = vec!["words are separated by at least one blank or a backslash-newline, as compilers write them".into()];
             s.bounds = json!({"format_deviations": tier.pick(2, 3), "string_len": tier.pick(9, 10), "odd_len": tier.pick(5, 6), "file_len": tier.pick(6, 7)});
@@ -96,6 +97,7 @@ pub fn spec(id: &str, tier: Tier) -> Option<CheckSpec> {
         "C14" => {
             let mut s = CheckSpec::new("exploration", tier);
             s.jobs = eng_load::jobs_c14(tier);
+            s.jobs.extend(eng_sched::jobs("C14", tier));
             s.rule = "a first build statement with every list of 1..3 outputs over 9 spellings {x,./x,d/../x,y,./y,x/,z/x,z//x, and y reached through 61 directories and 61 `..`} at every explicit/implicit split, alone and followed by a second statement (1..2 outputs, same file / included file / subninja'd before) and a third (1 output); expected per reference loader: error citing both statements iff two statements produce one location, otherwise accepted with a warning iff an output repeats, outputs unique, explicit count consistent. Non-trivial = rejected manifests and manifests with a repeated output.".into();
             s.bounds = json!({"first_statement_outputs": tier.pick(3, 4), "second": 2, "third": 1});
             s
